@@ -42,6 +42,27 @@ def pair_program(a):
     return '\n'.join(L)
 
 
+def viaregs_program(bs):
+    """The string reaches the byte-array view / write through a variable, a parameter, a call result and an array element."""
+    body = ''.join(esc(b) for b in bs)
+    return (f'string gs = "{body}g";\nstring pick(int k) {{ if (k == 0) {{ return "{body}r"; }} return gs; }}\n'
+            'empty show(const byte[] v) { write(v); write(v.length); }\nempty via(string p) { const byte[] v = p is byte[]; write(v); write(v[0]); show(p is byte[]); show(p); }\n'
+            f'empty @is_you() {{ string ls = "{body}l"; const string[] tab = ["{body}0", "{body}1"]; string[] mt = ["m{body}", "n"];\n'
+            'via(ls); via(gs); via(pick(0)); via(pick(1)); via(tab[1]); via(mt[0]); show(ls is byte[]); show(tab[0] is byte[]); show(pick(0) is byte[]);\n'
+            'const byte[] a = ls is byte[]; const byte[] b = pick(0) is byte[]; write(a); write(b); write(a[a.length - 1]); write(b[b.length - 1]); writeln(); }\n')
+
+
+def widths_program(vals, order):
+    """Constant arrays with equal values but different element types in one program."""
+    lit = '[' + ', '.join(str(v) for v in vals) + ']'
+    chars = '[' + ', '.join("'\\x%02x'" % (v % 256) for v in vals) + ']'
+    decls = {'b': f'const byte[] small = {lit};', 'i': f'const int[] wide = {lit};', 'c': f'const int[] ci = {chars};', 'y': f'const byte[] cy = {chars};'}
+    uses = {'b': 'for (int k = 0; k < small.length; k += 1) { write(small[k] is int); write(\',\'); }', 'i': 'for (int k = 0; k < wide.length; k += 1) { write(wide[k]); write(\',\'); }',
+            'c': 'for (int k = 0; k < ci.length; k += 1) { write(ci[k]); write(\',\'); }', 'y': 'for (int k = 0; k < cy.length; k += 1) { write(cy[k] is int); write(\',\'); }'}
+    return ('empty @is_you() { ' + ' '.join(decls[o] for o in order) + ' ' + ' '.join(uses[o] + ' writeln();' for o in order)
+            + ' bool[] fl = [true, false, true]; const bool[] cf = [true, false, true]; write(fl[0]); write(cf[2]); writeln(); }\n')
+
+
 def length_program(lo, hi):
     L = ['empty @is_you() {']
     for n in range(lo, hi):
@@ -107,6 +128,15 @@ def items(tier):
     for lo in range(0, 65, 13):
         out.append((i, 'len', lo))
         i += 1
+    for bs in ([0x41], [0x5c, 0x22], [0x00, 0xff, 0x0a], [], [0x27, 0x3b, 0x7f]):
+        out.append((i, 'viaregs', bs))
+        i += 1
+    import itertools as _it
+    for vals in ([1, 2, 3, 200], [104, 105, 33], [0], [255, 0, 255, 0, 255, 0, 255, 0, 1]):
+        for order in _it.permutations('bicy', 4):
+            if tier == 'thorough' or order[0] < order[1]:
+                out.append((i, 'widths', vals, ''.join(order)))
+                i += 1
     lens = range(0, 41) if tier == 'thorough' else [0, 1, 2, 7, 8, 9, 15, 16, 17, 31, 32, 33, 40]
     for el in ('int', 'byte', 'string'):
         for st_ in STORAGES:
@@ -141,6 +171,13 @@ def run_item(item, tier):
     elif kind == 'len':
         run_program(st, length_program(item[2], min(65, item[2] + 13)), [[]], Ws, f'string lengths {item[2]}..')
         st.add('cases', 13)
+    elif kind == 'viaregs':
+        run_program(st, viaregs_program(item[2]), [[]], Ws, f'strings through variables/calls/elements, bytes {item[2]}')
+        st.add('cases')
+        st.sample({'string_via_registers_bytes': item[2]})
+    elif kind == 'widths':
+        run_program(st, widths_program(item[2], item[3]), [[]], Ws, f'equal-valued constant arrays of different element types {item[2]} order {item[3]}')
+        st.add('cases')
     elif kind == 'arr':
         _, _, el, storage, lens = item
         for n in lens:
@@ -166,6 +203,8 @@ def coverage(total, tier):
         'raw': 'every printable ASCII character written literally in strings and character literals',
         'pairs': ('all 65536 ordered byte pairs' if tier == 'thorough' else 'ordered pairs with first byte in {\\\\, ", \', LF, CR, NUL, 0xff, A, ;, space, DEL, 0x80} x all 256') + ' (+ a 3-byte string indexed in the middle)',
         'lengths': 'strings of every length 0..64 (written, length, truthiness, last and middle index)',
+        'viaregs': 'string -> const byte[] views and writes where the string comes from a local, a global, a call result, a const and a mutable string array element (5 byte patterns)',
+        'widths': 'constant arrays with equal values but different element types (byte/int/char-as-int/char-as-byte) declared in ' + ('every' if tier == 'thorough' else 'half of the') + ' orders, 4 value sets',
         'arrays': 'int/byte/string/bool constant arrays, lengths ' + ('0..40' if tier == 'thorough' else '0,1,2,7,8,9,15,16,17,31,32,33,40') + ' x 5 storage classes; '
                   'ints at the word extremes; bool patterns all-false/all-true/alternating/single bit at ' + ('every position' if tier == 'thorough' else 'first, middle, last'),
         'word_sizes': '2,3,4' if tier == 'thorough' else '2 and one of 3,4',
